@@ -1757,6 +1757,8 @@ class SystemSuite(Suite):
             n = {"quick": 200, "thorough": 4000}[tier]
         if prop == "C11" and tier == "quick":
             n = 450       # the single fault must coincide with rare moments (mid-round, later collection rounds); a case is cheap
+        if prop == "C06" and tier == "thorough":
+            n = 1500      # C06's queue and batch suites take most of the thorough budget; resubmission epochs cost 2-3 cases each
         extra = sum(1 for m in modes if m in ADDED_MODES.get(prop, ()))
         if 0 < extra < len(modes):
             n = n * len(modes) // (len(modes) - extra)      # the other modes keep their number of cases
